@@ -441,6 +441,8 @@ func init() {
 			a.c16Whitespace()
 			a.c16QueryParse("V.query-parse")
 			a.signatureLayout("K.signature")
+			a.c03PlaintextPolicy("P.plaintext-policy")
+			a.c18StateWriters()
 			a.c15FragmentPrefix()
 			// a repeated or replacing DH-Commit while we wait for the Reveal-Signature is answered with the DH-Key already
 			// sent (the peer may have used it): that handler draws no new exponent
